@@ -267,6 +267,7 @@ pub fn optimize(input: &InFile, output: &OutFile, opts: &Options) -> PngResult<(
             let mut buffer = BufWriter::new(stdout());
             buffer
                 .write_all(&optimized_output)
+                .and_then(|()| buffer.flush())
                 .map_err(|e| PngError::new(&format!("Unable to write to stdout: {e}")))?;
         }
         (OutFile::Path { path, .. }, _) => {
